@@ -57,6 +57,40 @@ def levels(tier, plan):
     return out
 
 
+def geometry_histories(tier):
+    """single-operator (and RELU-preceded, so that the operator is not the first of the network) networks over a lattice of input
+    extents x kernel / stride geometries, including strides beyond 3 that the compiler folds into the depth or accepts because the
+    output is one pixel wide / high"""
+    quick = tier == "quick"
+    Ws = (2, 4, 6, 9) if quick else (1, 2, 3, 4, 6, 9, 12)
+    Hs = (1, 3) if quick else (1, 2, 3)
+    Cs = (3, 8) if quick else (1, 8)
+    kws = (1, 3, 4) if quick else (1, 2, 3, 4, 5)
+    sws = (2, 4, 6) if quick else (2, 3, 4, 6, 8)
+    out = []
+    for H in Hs:
+        for W in Ws:
+            for C_ in Cs:
+                start = ([1, H, W, C_], "int8" if (H + W + C_) % 3 else "uint8")
+                steps = []
+                for kh in ((1,) if H == 1 else (1, 3)):
+                    for kw in kws:
+                        for sw in sws:
+                            for sh in ((1,) if quick else (1, 4)):
+                                for pad in "SV":
+                                    steps.append("convg.k%dx%d.s%dx%d.%s.c8" % (kh, kw, sh, sw, pad))
+                                    if not quick or (kw == 3 and sw in (2, 4)):
+                                        steps.append("dwg.k%dx%d.s%dx%d.%s" % (kh, kw, sh, sw, pad))
+                                        steps.append("maxg.k%dx%d.s%dx%d.%s" % (kh, kw, sh, sw, pad))
+                                        steps.append("avgg.k%dx%d.s%dx%d.%s" % (kh, kw, sh, sw, pad))
+                for st in steps:
+                    for pre in ((), ("relu",)):
+                        h = dict(start=start, steps=list(pre) + [st])
+                        if nets.build(h, 0) is not None:
+                            out.append(h)
+    return out
+
+
 def default_plan(tier, scale=1.0):
     mids = ["tap", "branch_cpu", "branch_npu"]
     big = [((1, 32, 32, 16), "int8")]
@@ -84,6 +118,7 @@ def default_plan(tier, scale=1.0):
                 ("cpualias4xC2", cpualias, "c2"),
                 ("G1xCZ", nets.STARTS_Q[:2], nets.SIGMA_Q, 1, "cZ"),
                 ("regblockdepxCP", reg_blockdep, "cP"), ("regtilepadxC8", reg_tilepad, "c8"), ("regupcascadexC8", reg_upcascade, "c8"), ("regifacexC2", reg_iface, "c2"),
+                ("geometryxC1", geometry_histories(tier), "c1"),
                 ("perfcascade3xCP", histories(big, perf_ops, 3), "cP")]
     return [("G1xC24", nets.STARTS_T, nets.SIGMA_T, 1, "c24"),
             ("resizefirstxCR", resize_first + [dict(start=([1, 16, 16, 8], "int8"), steps=h["steps"]) for h in resize_first], "cR"),
@@ -91,7 +126,7 @@ def default_plan(tier, scale=1.0):
             ("G2xC8", nets.STARTS_Q, nets.SIGMA_Q, 2, "c8"),
             ("chain3xC4", nets.STARTS_Q[:2], nets.SIGMA_C, 3, "c4"),
             ("perfcascade3xCP", histories(big + [((1, 48, 48, 8), "int8")], nets.SIGMA_C, 3), "cP"),
-            ("cpualias4xC8", cpualias, "c8"), ("G1xCZ", nets.STARTS_T, nets.SIGMA_T, 1, "cZ"),
+            ("geometryxC2", geometry_histories(tier), "c2"), ("cpualias4xC8", cpualias, "c8"), ("G1xCZ", nets.STARTS_T, nets.SIGMA_T, 1, "cZ"),
             ("fork3xC8", fork_histories(nets.STARTS_Q, nets.SIGMA_C + ["cpu_neg", "concat", "split"], mids, nets.SIGMA_C + ["cpu_neg", "concat", "reshape"]), "c8")]
 
 
